@@ -279,13 +279,19 @@ func NewParametersFromLiteral(residualParameters ckks.Parameters, btpLit Paramet
 		/* #nosec G115 -- logqi cannot be negative */
 		g := ring.NewNTTFriendlyPrimesGenerator(uint64(logqi), NthRoot)
 
+		// Primes of 61 bits must stay below 2^61 (as in rlwe.GenModuli)
+		nextPrime := g.NextAlternatingPrime
+		if logqi == 61 {
+			nextPrime = g.NextDownstreamPrime
+		}
+
 		// Populates the list with primes that aren't yet in primesHave
 		primes := make([]uint64, k)
 		var i int
 		for i < k {
 
 			for {
-				qi, err := g.NextAlternatingPrime()
+				qi, err := nextPrime()
 
 				if err != nil {
 					return Parameters{}, fmt.Errorf("cannot NewParametersFromLiteral: NextAlternatingPrime for 2^{%d} +/- k*2N + 1: %w", logqi, err)
